@@ -112,13 +112,41 @@ def load_known() -> list[dict]:
     return data.get("findings", [])
 
 
+_ALPHA_KEEP = {
+    "self", "cls", "np", "numpy", "xr", "xarray", "da", "dask", "pd", "pandas", "sp", "scipy", "math", "warnings",
+    "True", "False", "None", "len", "range", "int", "float", "bool", "str", "list", "tuple", "dict", "set", "zip", "enumerate",
+    "min", "max", "sum", "abs", "sorted", "isinstance", "print", "any", "all", "map", "filter", "slice", "type", "complex",
+}
+
+
+def alpha(construct: str) -> str:
+    """the construct with its local names replaced by placeholders in order of first appearance: a finding is the same
+    finding after a local variable was renamed.  Text that is not a Python statement is returned unchanged."""
+    import ast as _ast
+
+    try:
+        tree = _ast.parse(construct)
+    except (SyntaxError, ValueError):
+        return construct
+    names: dict[str, str] = {}
+    for n in _ast.walk(tree):
+        if isinstance(n, _ast.Name) and n.id not in _ALPHA_KEEP:
+            n.id = names.setdefault(n.id, f"_v{len(names)}")
+    try:
+        return _ast.unparse(tree)
+    except Exception:
+        return construct
+
+
 def match_known(o: Obligation, known: list[dict]) -> dict | None:
     for k in known:
         if k.get("status") != "known":
             continue  # 'fixed' entries suppress nothing
         if k.get("property") != o.prop:
             continue
-        if k.get("rule") == o.rule and k.get("function") == o.func and k.get("construct") == o.construct:
+        if k.get("rule") == o.rule and k.get("function") == o.func and (
+            k.get("construct") == o.construct or alpha(k.get("construct", "")) == alpha(o.construct)
+        ):
             return k
     return None
 
